@@ -51,6 +51,22 @@ func permMenu(n int) [][]int {
 	if n <= 4 {
 		permutations(n, func(p []int) { out = append(out, append([]int{}, p...)) })
 		// permutations() starts with the identity
+	} else if n > 16 {
+		// large maps: a fixed menu of six orders
+		mk := func(f func(i int) int) []int {
+			p := make([]int, n)
+			for i := range p {
+				p[i] = f(i)
+			}
+			return p
+		}
+		out = append(out, id, mk(func(i int) int { return n - 1 - i }), mk(func(i int) int { return (i + 1) % n }), mk(func(i int) int { return (i + n/2) % n }))
+		sw := append([]int{}, id...)
+		sw[0], sw[1] = 1, 0
+		out = append(out, sw)
+		sw2 := append([]int{}, id...)
+		sw2[n-1], sw2[n-2] = n-2, n-1
+		out = append(out, sw2)
 	} else {
 		out = append(out, id)
 		for r := 1; r < n; r++ {
@@ -137,13 +153,43 @@ type c10Case struct {
 	Fanout  int      `json:"fanout,omitempty"`
 	Names   []string `json:"names,omitempty"`
 	Permute bool     `json:"permute_entries,omitempty"`
+	// Variant: "" | "shared-targets" (several names link the same block) |
+	// "mixed-threshold" (2000 generated entries whose links alternate between
+	// 34-byte CIDv0 and 36-byte CIDv1, size estimate next to the auto-shard
+	// threshold)
+	Variant string `json:"variant,omitempty"`
 }
 
 func (c c10Case) String() string {
 	if c.Kind == "file" {
 		return "file " + c.File.String()
 	}
-	return fmt.Sprintf("%s F=%d %q permute=%v", c.Kind, c.Fanout, trimNames(c.Names), c.Permute)
+	return fmt.Sprintf("%s F=%d %q permute=%v %s", c.Kind, c.Fanout, trimNames(c.Names), c.Permute, c.Variant)
+}
+
+// entries builds the entry list of a directory case.
+func (c c10Case) entries(s *store.Store) []gen.DirEntry {
+	switch c.Variant {
+	case "shared-targets":
+		es := gen.Leaves(s, c.Names)
+		for i := range es {
+			es[i].Cid, es[i].Tsize = es[i%2].Cid, es[i%2].Tsize
+		}
+		return es
+	case "mixed-threshold":
+		// 2000 names of 96 bytes: 192000 + 1000*34 + 1000*36 = 262000 <= 262144
+		es := make([]gen.DirEntry, 2000)
+		for i := range es {
+			name := fmt.Sprintf("%096d", i)
+			e := gen.Leaf(s, fmt.Sprint(i%7))
+			if i%2 == 0 {
+				e.Cid = cid.NewCidV0(e.Cid.Hash())
+			}
+			es[i] = gen.DirEntry{Name: name, Cid: e.Cid, Tsize: e.Tsize}
+		}
+		return es
+	}
+	return gen.Leaves(s, c.Names)
 }
 
 type c10Replay struct {
@@ -163,10 +209,19 @@ func (c c10Case) body(x *xplore.Ctx) string {
 			root, sz, err = gen.BuildOurs(s, &fragReader{data: c.File.content(), x: x}, c.File.Chunker)
 		})
 	case "sharded", "plain", "quick":
-		es := gen.Leaves(s, c.Names)
+		es := c.entries(s)
 		if c.Permute && len(es) > 1 {
 			var perms [][]int
-			permutations(len(es), func(p []int) { perms = append(perms, append([]int{}, p...)) })
+			if len(es) <= 5 {
+				permutations(len(es), func(p []int) { perms = append(perms, append([]int{}, p...)) })
+			} else {
+				n := len(es)
+				id, rev, rot := make([]int, n), make([]int, n), make([]int, n)
+				for i := range id {
+					id[i], rev[i], rot[i] = i, n-1-i, (i+1)%n
+				}
+				perms = [][]int{id, rev, rot}
+			}
 			p := perms[x.ChooseFree(len(perms), "entry-order")]
 			in := make([]gen.DirEntry, len(es))
 			for i, j := range p {
@@ -239,7 +294,7 @@ func cleanupFixture() {
 
 func runC10(r *core.Run) {
 	defer cleanupFixture()
-	r.Rule("stateless DFS over choice sequences: (i) the iteration order of every map range in the builders (instrumented overlay: all permutations for maps <= 4 keys, rotations/reversal/adjacent swaps above), (ii) every permutation of the entry slice (n <= 5), (iii) source-reader fragmentation {full, 1 byte, half, (0,nil), data+EOF} with deviation bound 3 (quick 2); inputs: small file family incl. rabin/buzhash, every subset of a 6-name colliding universe at F in {8,256}, plain, quick-builder and recursive builds; oracle: exactly one distinct (link,size) observation per logical input")
+	r.Rule("stateless DFS over choice sequences: (i) the iteration order of every map range in the builders (instrumented overlay: all permutations for maps <= 4 keys, rotations/reversal/adjacent swaps up to 16 keys, six fixed orders above), (ii) every permutation of the entry slice (n <= 5), (iii) source-reader fragmentation {full, 1 byte, half, (0,nil), data+EOF} with deviation bound 3 (quick 2); inputs: small file family incl. rabin/buzhash, every subset of a 6-name colliding universe at F in {8,256}, plain, quick-builder and recursive builds; oracle: exactly one distinct (link,size) observation per logical input")
 	if !overlayActive {
 		r.InternalError("C10 needs the instrumented overlay build (run through run.sh)")
 		return
@@ -281,6 +336,12 @@ func runC10(r *core.Run) {
 		cases = append(cases, c10Case{Kind: "quick", Names: names})
 	}
 	cases = append(cases, c10Case{Kind: "recursive"})
+	for mask := 3; mask < 1<<uint(len(u)); mask += 4 {
+		names := gen.SubsetOf(u, mask)
+		cases = append(cases, c10Case{Kind: "sharded", Fanout: 8, Names: names, Permute: len(names) <= 4, Variant: "shared-targets"})
+		cases = append(cases, c10Case{Kind: "plain", Names: names, Permute: len(names) <= 4, Variant: "shared-targets"})
+	}
+	cases = append(cases, c10Case{Kind: "plain", Permute: true, Variant: "mixed-threshold"}, c10Case{Kind: "quick", Variant: "mixed-threshold"})
 	if !r.Quick() {
 		du := gen.DeepUniverse()
 		for mask := 3; mask < 1<<uint(len(du)); mask += 97 {
@@ -295,12 +356,17 @@ func runC10(r *core.Run) {
 	// reader and run in parallel (grouped by width).
 	var mu sync.Mutex
 	runCase := func(i int, c c10Case) {
-		bound := 3
+		bound, maxExecs := 3, 400000
 		if c.Kind == "file" {
 			bound = fragBound
 		}
+		if c.Variant == "mixed-threshold" {
+			// 2000 entries: if the build shards, every shard is a map range;
+			// entry orders are free choices, map orders get one deviation
+			bound, maxExecs = 1, 400
+		}
 		obs := map[string][]int{}
-		ex := &xplore.Explorer{Bound: bound, Horizon: 5000, Replay: 2, MaxExecs: 400000, OnDiverge: func(ch []int, a, b string) {
+		ex := &xplore.Explorer{Bound: bound, Horizon: 5000, Replay: 2, MaxExecs: maxExecs, OnDiverge: func(ch []int, a, b string) {
 			// two runs with identical environment answers differ: that is the
 			// property failing (hidden nondeterminism), reported as such
 			r.Violate("nondeterministic-build hidden "+c.Kind, fmt.Sprintf("%s: identical choices %v gave %s then %s", c, ch, a, b), c10Replay{c, ch})
